@@ -314,8 +314,55 @@ def unregistered_bases(version):
     return out
 
 
+EXT_A, EXT_B = "extension-definition--" + V4[:-4] + "c4a1", "extension-definition--" + V4[:-4] + "c4a2"
+
+
+def registered_toplevel_bases():
+    """objects that carry REGISTERED toplevel-property extensions: their properties are specification content of the object, anything beyond them is custom.
+    (injection label or None, json)"""
+    import stix2
+    from stix2 import properties as P
+    R = stix2.registry.STIX2_OBJ_MAPS["2.1"]["extensions"]
+    if EXT_A not in R:
+        @stix2.v21.CustomExtension(EXT_A, [("tl_rank", P.IntegerProperty(required=True))])
+        class ExtA(object):
+            extension_type = "toplevel-property-extension"
+    if EXT_B not in R:
+        @stix2.v21.CustomExtension(EXT_B, [("tl_note", P.StringProperty()), ("tl_flag", P.BooleanProperty())])
+        class ExtB(object):
+            extension_type = "toplevel-property-extension"
+    g = gen.Gen("2.1")
+    tl = {"extension_type": "toplevel-property-extension"}
+    out = []
+    for key in ("objects:identity", "observables:file", "objects:relationship"):
+        b = g.minimal(key)
+        if key.startswith("observables"):
+            b = dict(b, spec_version="2.1", id="file--" + V4 + "d")
+        A = dict(b, tl_rank=3, extensions={EXT_A: dict(tl)})
+        out.append((None, "one", A))
+        out.append((None, "two/a-first", dict(b, tl_rank=3, tl_note="n", tl_flag=False, extensions={EXT_A: dict(tl), EXT_B: dict(tl)})))
+        out.append((None, "two/b-first", dict(b, tl_rank=3, tl_note="n", extensions={EXT_B: dict(tl), EXT_A: dict(tl)})))
+        out.append((None, "two/next-to-predefined-extension", dict(g.minimal("observables:file"), spec_version="2.1", id="file--" + V4 + "d", tl_rank=3, tl_note="n",
+                                                                   extensions={EXT_A: dict(tl), "archive-ext": {"contains_refs": ["file--" + V4 + "e"]}, EXT_B: dict(tl)})))
+        out.append(("x-property", "two+x-property", dict(b, tl_rank=3, tl_note="n", x_foo="bar", extensions={EXT_A: dict(tl), EXT_B: dict(tl)})))
+        out.append(("unknown-property", "two+unknown-property/b-first", dict(b, tl_rank=3, tl_note="n", foo_unknown=1, extensions={EXT_B: dict(tl), EXT_A: dict(tl)})))
+        out.append(("unknown-property", "one+property-of-the-absent-other", dict(b, tl_rank=3, tl_note="n", extensions={EXT_A: dict(tl)})))
+        out.append(("unknown-property", "property-without-its-extension", dict(b, tl_note="n")))
+    return out
+
+
 def run_case(case, part):
     env.reset()
+    if case.get("kind") == "registered-toplevel":
+        for inj, label, j in registered_toplevel_bases():
+            if case.get("label") not in (None, label) or case.get("type") not in (None, j["type"]):
+                continue
+            part.state(("registered-toplevel", j["type"], label), nontrivial=True)
+            c = {"kind": "registered-toplevel", "label": label, "type": j["type"], "injection": inj}
+            judge(part, j, "2.1", inj, c, "registered-toplevel-extensions/" + label, 1 if inj else 0, stores=True)
+            b = {"type": "bundle", "id": "bundle--" + V4 + "9", "objects": [j]}
+            judge(part, b, "2.1", inj, dict(c, nested_in="bundle"), "registered-toplevel-extensions/" + label + "/in-bundle", 1 if inj else 0, stores=False)
+        return
     if case.get("kind") == "unregistered":
         for inj, j in unregistered_bases(case["version"]):
             part.state((case["version"], inj), nontrivial=True)
@@ -372,6 +419,8 @@ def replay(case, part):
     c = {k: v for k, v in case.items() if k not in ("entry", "allow_custom", "nested_in")}
     if c.get("kind") == "unregistered":
         return run_case({"kind": "unregistered", "version": c["version"]}, part)
+    if c.get("kind") == "registered-toplevel":
+        return run_case({"kind": "registered-toplevel", "label": c.get("label"), "type": c.get("type")}, part)
     if isinstance(c.get("injection"), list):
         c = {k: v for k, v in c.items() if k not in ("site", "injection")}
         c["pairs"] = True
@@ -389,7 +438,7 @@ def run(run):
         for key in g.top_keys():
             cases.append({"version": version, "key": key, "label": "min", "pairs": th})
             cases.append({"version": version, "key": key, "label": "max"})
-    cases += [{"kind": "unregistered", "version": "2.0"}, {"kind": "unregistered", "version": "2.1"}]
+    cases += [{"kind": "unregistered", "version": "2.0"}, {"kind": "unregistered", "version": "2.1"}, {"kind": "registered-toplevel"}]
     run.mode = "DEV"
     run.rule = ("every (type, minimal|maximal base) x every injection site x injection kind x allow_custom x entry form, each also nested in a bundle%s; plus permissively pre-built sub-object "
                 "instances handed to strict and permissive parents; states = distinct bases; non-trivial = every injected case" % ("; all pairs of injections on minimal bases" if th else ""))
